@@ -59,6 +59,7 @@ func (r *Value) set(value proto.Message, request WriteRequest) (proto.Message, e
 	}
 
 	disarm := timeoutAlarm(time.Second, "GetAndUpdate took too long")
+	var sendErr error
 	_, newValue, err := GetAndUpdate(
 		&r.mu,
 		func() (proto.Message, error) {
@@ -68,6 +69,19 @@ func (r *Value) set(value proto.Message, request WriteRequest) (proto.Message, e
 		func(message proto.Message) {
 			r.value = message
 			r.changeTime = request.updateTime(r.clock)
+			disarm()
+
+			// publish while the write lock is still held: events then reach subscribers in the order the
+			// values were committed, so the last event a subscriber sees is the value that was stored last.
+			ctx, cancel := context.WithTimeout(context.TODO(), time.Second*5)
+			defer cancel()
+			r.bus.Send(ctx, &ValueChange{
+				Value:      message,
+				ChangeTime: request.updateTime(r.clock),
+			})
+			if errors.Is(ctx.Err(), context.DeadlineExceeded) {
+				sendErr = errors.New("bus.Send blocked for too long")
+			}
 		},
 	)
 	disarm()
@@ -75,15 +89,8 @@ func (r *Value) set(value proto.Message, request WriteRequest) (proto.Message, e
 	if err != nil {
 		return nil, err
 	}
-
-	ctx, cancel := context.WithTimeout(context.TODO(), time.Second*5)
-	defer cancel()
-	r.bus.Send(ctx, &ValueChange{
-		Value:      newValue,
-		ChangeTime: request.updateTime(r.clock),
-	})
-	if errors.Is(ctx.Err(), context.DeadlineExceeded) {
-		return nil, errors.New("bus.Send blocked for too long")
+	if sendErr != nil {
+		return nil, sendErr
 	}
 
 	return newValue, err
